@@ -1164,6 +1164,14 @@ static __attribute__((noinline)) void lit_##name(struct lit_shared *s, int me, u
 			     if (o_ != cur) { miss++; cur = o_; } else cur = (DT) (cur + 1u); } while (0)
 #define LIT_ADDR(DT)	acc += (uint64_t) uatomic_add_return(d, (DT) 1)
 #define LIT_SUBR(DT)	acc += (uint64_t) uatomic_sub_return(d, (DT) 1)
+/* operand shapes an implementation might special-case at compile time: literal 0, literal -1, a run-time
+ * value; a successful cmpxchg that stores the value already there */
+#define LIT_ADDR0(DT)	acc += (uint64_t) uatomic_add_return(d, 0)
+#define LIT_SUBR0(DT)	acc += (uint64_t) uatomic_sub_return(d, 0)
+#define LIT_ADDRM1(DT)	acc += (uint64_t) uatomic_add_return(d, -1)
+#define LIT_ADDRV(DT)	acc += (uint64_t) uatomic_add_return(d, (DT) (r | 1))
+#define LIT_CMPXCHG_SAME(DT) do { DT o_ = uatomic_cmpxchg(d, cur, cur);				\
+			     if (o_ != cur) { miss++; cur = o_; } } while (0)
 
 #define LIT_ALL_OPS(DT, M, W)									\
 LIT_DEF(xchg_##W##_rlx, DT, M, LIT_ST_RLX, LIT_XCHG(DT), LIT_LD_RLX)				\
@@ -1173,7 +1181,14 @@ LIT_DEF(cmpxchg_##W##_plain, DT, M, LIT_ST_PLAIN, LIT_CMPXCHG(DT), LIT_LD_PLAIN)
 LIT_DEF(add_return_##W##_rlx, DT, M, LIT_ST_RLX, LIT_ADDR(DT), LIT_LD_RLX)			\
 LIT_DEF(add_return_##W##_plain, DT, M, LIT_ST_PLAIN, LIT_ADDR(DT), LIT_LD_PLAIN)		\
 LIT_DEF(sub_return_##W##_rlx, DT, M, LIT_ST_RLX, LIT_SUBR(DT), LIT_LD_RLX)			\
-LIT_DEF(sub_return_##W##_plain, DT, M, LIT_ST_PLAIN, LIT_SUBR(DT), LIT_LD_PLAIN)
+LIT_DEF(sub_return_##W##_plain, DT, M, LIT_ST_PLAIN, LIT_SUBR(DT), LIT_LD_PLAIN)		\
+LIT_DEF(add_return0_##W##_rlx, DT, M, LIT_ST_RLX, LIT_ADDR0(DT), LIT_LD_RLX)			\
+LIT_DEF(add_return0_##W##_plain, DT, M, LIT_ST_PLAIN, LIT_ADDR0(DT), LIT_LD_PLAIN)		\
+LIT_DEF(sub_return0_##W##_rlx, DT, M, LIT_ST_RLX, LIT_SUBR0(DT), LIT_LD_RLX)			\
+LIT_DEF(sub_return0_##W##_plain, DT, M, LIT_ST_PLAIN, LIT_SUBR0(DT), LIT_LD_PLAIN)		\
+LIT_DEF(add_returnm1_##W##_rlx, DT, M, LIT_ST_RLX, LIT_ADDRM1(DT), LIT_LD_RLX)			\
+LIT_DEF(add_returnv_##W##_plain, DT, M, LIT_ST_PLAIN, LIT_ADDRV(DT), LIT_LD_PLAIN)		\
+LIT_DEF(cmpxchg_same_##W##_rlx, DT, M, LIT_ST_RLX, LIT_CMPXCHG_SAME(DT), LIT_LD_RLX)
 
 LIT_ALL_OPS(unsigned char, c, 1)
 LIT_ALL_OPS(unsigned short, s, 2)
@@ -1199,7 +1214,14 @@ struct lit_cfg {
 	{ "add_return", W, "relaxed", lit_add_return_##W##_rlx },	\
 	{ "add_return", W, "plain", lit_add_return_##W##_plain },	\
 	{ "sub_return", W, "relaxed", lit_sub_return_##W##_rlx },	\
-	{ "sub_return", W, "plain", lit_sub_return_##W##_plain },
+	{ "sub_return", W, "plain", lit_sub_return_##W##_plain },	\
+	{ "add_return(literal 0)", W, "relaxed", lit_add_return0_##W##_rlx },	\
+	{ "add_return(literal 0)", W, "plain", lit_add_return0_##W##_plain },	\
+	{ "sub_return(literal 0)", W, "relaxed", lit_sub_return0_##W##_rlx },	\
+	{ "sub_return(literal 0)", W, "plain", lit_sub_return0_##W##_plain },	\
+	{ "add_return(literal -1)", W, "relaxed", lit_add_returnm1_##W##_rlx },	\
+	{ "add_return(run-time operand)", W, "plain", lit_add_returnv_##W##_plain },	\
+	{ "cmpxchg(same value)", W, "relaxed", lit_cmpxchg_same_##W##_rlx },
 static const struct lit_cfg lit_cfgs[] = {
 	LIT_CFGS(4) LIT_CFGS(8) LIT_CFGS(1) LIT_CFGS(2)
 };
